@@ -1163,7 +1163,7 @@ impl PrimitiveValue {
                     })
                 })
                 .collect::<Result<Vec<_>, _>>(),
-            PrimitiveValue::I32(s) if !s.is_empty() => s
+            PrimitiveValue::I32(s) => s
                 .iter()
                 .map(|v| {
                     T::from(*v).ok_or_else(|| ConvertValueError {
@@ -1179,7 +1179,7 @@ impl PrimitiveValue {
                     })
                 })
                 .collect::<Result<Vec<_>, _>>(),
-            PrimitiveValue::U64(s) if !s.is_empty() => s
+            PrimitiveValue::U64(s) => s
                 .iter()
                 .map(|v| {
                     T::from(*v).ok_or_else(|| ConvertValueError {
@@ -1195,7 +1195,7 @@ impl PrimitiveValue {
                     })
                 })
                 .collect::<Result<Vec<_>, _>>(),
-            PrimitiveValue::I64(s) if !s.is_empty() => s
+            PrimitiveValue::I64(s) => s
                 .iter()
                 .map(|v| {
                     T::from(*v).ok_or_else(|| ConvertValueError {
